@@ -651,7 +651,8 @@ class simplify_chained_calls(FuncADLNodeTransformer):
 
     def visit_Subscript_Dict_with_value(self, v: ast.Dict, s: Union[str, int]):
         "Do the lookup for the dict. Returns None if the key is not in the dict."
-        for index, value in enumerate(v.keys):
+        # As in python, the last of several equal keys is the one that counts
+        for index, value in reversed(list(enumerate(v.keys))):
             if isinstance(value, ast.Constant) and value.value == s:
                 return copy.deepcopy(v.values[index])
 
